@@ -97,6 +97,9 @@ PROPS = {
                 "(1, 7, 60, L, L+2), threads 1/2/4/16; sam.ToMultiAlign in-process; non-trivial = some CIGAR has an operator other than M",
     },
     "C02": {
+        "extra_imports": ["Gofasta.Lemmas.PairSingle"],
+        "extra_theorems": ["Gofasta.Lemmas.blockToSeqPair_single", "Gofasta.Lemmas.single_ref_lossless", "Gofasta.Lemmas.single_lengths",
+                           "Gofasta.Lemmas.single_gap_count", "Gofasta.Lemmas.walk_keepRefCols", "Gofasta.Lemmas.single_skip_insertions"],
         "streams": {"C02": (500, 10000)},
         "thorough_seeds": 3,
         "rule": "as C01 with every query's records on disjoint reference intervals (non-conflicting), 0-5 insertions per record incl. after the last aligned base, "
